@@ -98,7 +98,18 @@ def run_meta(case):
                 df = pd.DataFrame({"ra": cat["ra"], "dec": cat["dec"], **({"w": cat["w"]} if cat["w"] is not None else {})})
                 catalog = Catalog.from_dataframe(tmp / "c", df, ra_name="ra", dec_name="dec", weight_name="w" if cat["w"] is not None else None, patch_centers=first, degrees=False, max_workers=1)
             elif case["mode"] == "centers":
-                catalog = pl.make_catalog(tmp / "c", cat, given)
+                # the caller's array of centres is handed over and reused (overwritten) afterwards:
+                # the catalog must keep the centres it was given
+                import pandas as pd
+
+                handed = np.array(given, dtype=float)
+                df = pd.DataFrame({"ra": cat["ra"], "dec": cat["dec"], **({"w": cat["w"]} if cat["w"] is not None else {})})
+                extra = {}
+                if cat.get("stale_pid") is not None:  # redundant patch-index column: documented to be ignored
+                    df["pid"] = np.asarray(cat["stale_pid"], dtype=np.int64)
+                    extra["patch_name"] = "pid"
+                catalog = Catalog.from_dataframe(tmp / "c", df, ra_name="ra", dec_name="dec", weight_name="w" if cat["w"] is not None else None, patch_centers=AngularCoordinates(handed), degrees=False, max_workers=1, **extra)
+                handed[:] = handed[::-1] + 0.25
             elif case["mode"] == "ids":
                 catalog = pl.make_catalog(tmp / "c", cat, patch_ids=s.patch)
             else:
